@@ -391,7 +391,17 @@ func startRead(cctx context.Context, g storage.Graph, m int, q *spec, lo *storag
 // same read issued again through the same handle returns what the plain store
 // returns.
 func HarnessC19Abandon() {
-	all := c19Specs()
+	// three results for every read method (the data set of HarnessC09Paging)
+	mk := func(s, p, o byte) *spec {
+		sp := &spec{sb: s, pb: p, ob: o}
+		sp.t = sp.build()
+		return sp
+	}
+	var all []*spec
+	for i := 0; i < 3; i++ {
+		c := byte('1' + i)
+		all = append(all, mk('a', 'p', c), mk(c, 'q', 'z'), mk('v', c, 'w'))
+	}
 	ms := memoization.New(memory.NewStore())
 	ps := memory.NewStore()
 	mg, e1 := ms.NewGraph(ctx, "?g")
@@ -400,7 +410,8 @@ func HarnessC19Abandon() {
 	mg.AddTriples(ctx, triples(all))
 	pg.AddTriples(ctx, triples(all))
 	m := verif.Choice("method", 11)
-	q := all[verif.Choice("arg", 2)*3]
+	q := []*spec{mk('a', 'p', '1'), mk('1', 'q', 'z'), mk('a', 'x', 'x'), mk('x', 'x', 'z'), mk('v', 'x', 'w'),
+		mk('a', 'x', 'x'), mk('x', 'q', 'x'), mk('x', 'x', 'z'), mk('a', 'p', 'x'), mk('x', 'q', 'z'), mk('x', 'x', 'x')}[m]
 	take := verif.Choice("take", 3)
 	warm := verif.Choice("warm", 2) == 1
 	lo := &storage.LookupOptions{}
@@ -422,5 +433,6 @@ func HarnessC19Abandon() {
 	want, _, err2, f2 := c19ReadAll(pg, m, q, lo, all)
 	verif.Assert(verif.And(!f1, !f2), "C19/abandon/result-derived-from-stored-triple")
 	verif.Assert((err1 == nil) == (err2 == nil), "C19/abandon/same-error")
+	verif.Assert(len(want) >= 3, "C19/abandon/three-results")
 	verif.Assert(sameSpecs(got, want), "C19/abandon/read-same-answer")
 }
